@@ -16,6 +16,7 @@ import GeoProofs.Lemmas.C06PPos
 import GeoProofs.Lemmas.C06PHullA
 import GeoProofs.Lemmas.C06XSep
 import GeoProofs.Lemmas.C06XMoment
+import GeoProofs.Lemmas.TRAN2Centroid
 import Mathlib.Tactic.NormNum
 
 namespace Geo.Proofs.C06
@@ -621,4 +622,44 @@ example :
     norm_num [p, absRingMoment, ringMoment, twiceAreaText, isClosed, windows2, det, sumR] at h1 h2 h3 h4 ⊢
     linarith
 
+/-! ### tie to the source -/
+
+/-- [E2] (translator tie) the accumulator of centroid.rs in the model is the term `translator/rs2lean.py` regenerates on
+every run from the Rust bodies (`GeoModel/Gen/CentroidGen.lean`): the `Coord` operators of geo-types it is written with
+(`+`, `-`, `* t`, `/ t`), `WeightedCentroid::{add_assign, sub_assign}` (the three-way `cmp` on dimensions, what each arm
+assigns), `CentroidOperation::{centroid, centroid_dimensions, add_weighted_centroid, add_centroid, add_coord}`, `Line::centroid`,
+`add_line` (dimension match), `add_line_string` (the early return above dimension 1, the one-coordinate case, the loop over
+`lines()`), `add_multi_line_string`, `add_multi_point`, `add_ring` (zero-area match on the ring's dimensions; the shifted
+moment fold, `/ (6 · area) + shift`, weight `|area|`), `add_rect` (dimension match, the four degenerate lines in order) and
+`add_polygon` (two sub-operations, holes counted only when two-dimensional, `sub_assign`, the zero-weight degeneration to the
+exterior line string). `Euclidean.length(line)` is the same parameter `len` on both sides, so there is no hypothesis.
+A changed comparison, operand, branch or order changes the regenerated definition and this theorem stops checking. -/
+theorem centroidOperation_eq_source (len : Pt → Pt → Rat) :
+    (∀ a b : Pt, a + b = Gen.coordAdd a b ∧ a - b = Gen.coordSub a b) ∧
+    (∀ (c : Pt) (w : Rat), Gen.coordMul c w = Pt.smul w c ∧ Gen.coordDiv c w = Cen.Pt.divS c w) ∧
+    (∀ a b : Cen.WC, Gen.wcAddAssign a b = a.addAssign b ∧ Gen.wcSubAssign a b = a.subAssign b) ∧
+    (∀ o : Cen.Op, Gen.opCentroid o = o.centroid ∧ Gen.centroidDimensions o = o.dims) ∧
+    (∀ o w, Gen.addWeightedCentroid o w = Cen.addWC o w) ∧
+    (∀ o d c w, Gen.addCentroid o d c w = Cen.addCentroid o d c w) ∧
+    (∀ o c, Gen.addCoord o c = Cen.addCoord o c) ∧
+    (∀ a b, Gen.lineCentroid a b = Cen.mid a b) ∧
+    (∀ o (l : Pt × Pt), Gen.addLine len o l = Cen.addLine len o l.1 l.2) ∧
+    (∀ o cs, Gen.addLineString len o cs = Cen.addLineString len o cs) ∧
+    (∀ o ls, Gen.addMultiLineString len o ls = Cen.addMultiLineString len o ls) ∧
+    (∀ o ps, Gen.addMultiPoint o ps = Cen.addMultiPoint o ps) ∧
+    (∀ o r, Gen.addRing len o r = Cen.addRing len o r) ∧
+    (∀ o mn mx, Gen.addRect len o ⟨mn, mx⟩ = Cen.addRect len o mn mx) ∧
+    (∀ o p, Gen.addPolygon len o p = Cen.addPolygon len o p) :=
+  ⟨fun a b => ⟨Geo.Proofs.TRAN2Centroid.coordAdd_eq a b, Geo.Proofs.TRAN2Centroid.coordSub_eq a b⟩,
+   fun c w => ⟨Geo.Proofs.TRAN2Centroid.mul_eq_smul c w, Geo.Proofs.TRAN2Centroid.div_eq_divS c w⟩,
+   fun a b => ⟨Geo.Proofs.TRAN2Centroid.wcAddAssign_eq a b, Geo.Proofs.TRAN2Centroid.wcSubAssign_eq a b⟩,
+   fun o => ⟨Geo.Proofs.TRAN2Centroid.opCentroid_eq o, Geo.Proofs.TRAN2Centroid.centroidDimensions_eq o⟩,
+   Geo.Proofs.TRAN2Centroid.addWeightedCentroid_eq, Geo.Proofs.TRAN2Centroid.addCentroid_eq,
+   Geo.Proofs.TRAN2Centroid.addCoord_eq, Geo.Proofs.TRAN2Centroid.lineCentroid_eq,
+   Geo.Proofs.TRAN2Centroid.addLine_eq len, Geo.Proofs.TRAN2Centroid.addLineString_eq len,
+   Geo.Proofs.TRAN2Centroid.addMultiLineString_eq len, Geo.Proofs.TRAN2Centroid.addMultiPoint_eq,
+   Geo.Proofs.TRAN2Centroid.addRing_eq len, Geo.Proofs.TRAN2Centroid.addRect_eq len,
+   Geo.Proofs.TRAN2Centroid.addPolygon_eq len⟩
+
 end Geo.Proofs.C06
+
